@@ -84,6 +84,7 @@ def run(ctx):
     shiftsolvers.backtransform_before_sort(ctx, BASE, 2)
     shiftsolvers.shifted_classes_override(ctx, BASE)
     shiftsolvers.complex_shift_backtransform_defined_at_zero(ctx)
+    shiftsolvers.complex_shift_double_root_avoided(ctx)
     neighbour_overwrite_guard(ctx)
     from . import c13
     c13.index_ranges(ctx, bases=('Spectra::GenEigsBase',), floor=60)
